@@ -110,6 +110,9 @@ def refactors(argv):
 def main(argv):
     if "--refactors" in argv:
         return refactors(argv)
+    if "--isa" in argv:
+        from . import isacheck
+        return isacheck.main(argv)
     sys.path.insert(0, os.path.join(VERIF, "mutants"))
     import catalog
     ms = catalog.M
